@@ -53,6 +53,14 @@ add("C14", "Hypothesis-generated expressions with a designated tensor; oracle: e
     "derivative blocks contracted with a random variation must equal the linear coefficient of s -> E(T + s dT).",
     "Trusted: F_p evaluator, documented naming rule for block indices; out-of-domain classes (different blocks in one term, Einstein-ambiguous block expressions) are excluded and counted.")
 
+add("C17", "Hypothesis-generated expressions and generate_code settings; the emitted program text is parsed and executed by an independent einsum/libtensor interpreter on an F_p model (translation validation by differential execution)",
+    "Generated-input search: terms with identical free indices incl. traces, outer products, nested and hyper-contractions, constructed (1 +- P) symmetrisations, target strings with/without ',' and spin, "
+    "bra-ket symmetry, result-tensor kind, both backends, optimised/unoptimised, limits; program value (prefactors, block names, index strings, nesting, permutation operators) == value of the expression.",
+    "Trusted: the dialect interpreters (self-tested on hand-written programs at every run), F_p evaluator. Refusals: NotImplementedError, Inputerror, RuntimeError under explicit limits.")
+add("C18", "Hypothesis-generated printable expressions + a pool of real derivation/transformation outputs; round-trip oracle (print -> import -> re-assume) with value in F_p, tensor kinds and re-printed text",
+    "Generated-input search: every printable object kind incl. operators, NO groups, spins, numbered names, fractions with bracket powers, sqrt/rational prefactors under generated assumptions; plus 26 library outputs x 4 post-processings per run.",
+    "Trusted: F_p evaluator (operators as position-tagged tensors). The atheris campaign planned in DESIGN.md was not built (see DESIGN.md section 5).")
+
 NOT_YET = "check not built yet in this round (planned, see DESIGN.md)"
 
 def main():
